@@ -3,7 +3,8 @@ import ast
 
 from ..core import AnalysisError
 from .. import pyfront as P
-from .. import pycfg
+from .. import pycfg, gsa, strfrag
+import re
 
 EXPLANATION = ('Static rules over giscanner/xmlwriter.py (and who-may-call over all of giscanner): escaping '
                'discipline as a taint rule (every attribute value reaches the output only through the stdlib '
@@ -52,15 +53,54 @@ def classify_use(n):
     return 'other:%s' % type(p).__name__
 
 
-def attr_loop(py, fname):
-    f = py.func('xmlwriter', fname)
-    params = [a.arg for a in f.args.args]
-    loops = [n for n in P.walk_no_nested(f) if isinstance(n, ast.For) and isinstance(n.iter, ast.Name)
-             and n.iter.id in params and isinstance(n.target, ast.Tuple) and len(n.target.elts) == 2
-             and all(isinstance(e, ast.Name) for e in n.target.elts)]
-    if len(loops) != 1:
-        raise AnalysisError('%s: expected one `for attr, value in <attributes param>` loop, found %d' % (fname, len(loops)))
-    return f, loops[0]
+def pair_scopes(f):
+    """places where f walks one of its parameters as (name, value) pairs:
+    [(kind, node, name var, value var, scope for uses)] for `for a, v in param:` loops and comprehension generators"""
+    params = set(a.arg for a in f.args.args)
+    for t, v, st in P.stores_in(f):          # plain aliases of the parameter
+        if isinstance(t, ast.Name) and isinstance(v, ast.Name) and v.id in params:
+            params.add(t.id)
+    out = []
+    for n in P.walk_no_nested(f):
+        if isinstance(n, ast.For) and isinstance(n.iter, ast.Name) and n.iter.id in params and isinstance(n.target, ast.Tuple) \
+                and len(n.target.elts) == 2 and all(isinstance(e, ast.Name) for e in n.target.elts):
+            out.append(('for', n, n.target.elts[0].id, n.target.elts[1].id, n))
+        elif isinstance(n, (ast.ListComp, ast.GeneratorExp, ast.SetComp)):
+            for g in n.generators:
+                if isinstance(g.iter, ast.Name) and g.iter.id in params and isinstance(g.target, ast.Tuple) and len(g.target.elts) == 2 \
+                        and all(isinstance(e, ast.Name) for e in g.target.elts):
+                    out.append(('comp', g, g.target.elts[0].id, g.target.elts[1].id, n))
+    return out
+
+
+def pair_functions(py):
+    """module-level functions of xmlwriter.py that walk an attribute list parameter (emission and width computation)"""
+    m = py.mod('xmlwriter')
+    out = []
+    for name, f in sorted(m.functions.items()):
+        sc = pair_scopes(f)
+        if sc:
+            out.append((name, f, sc))
+    if len(out) < 2:
+        raise AnalysisError('xmlwriter.py: expected the attribute emitter and its width computation to walk (name, value) pairs, found %s' % [x[0] for x in out])
+    return out
+
+
+def none_guard_only(kind, node, scope, vname, use):
+    """is `use` (an expression inside the scope) reached exactly when the value is not None?"""
+    if kind == 'comp':
+        tests = [P.src(t) for t in node.ifs]
+        return tests == ['%s is not None' % vname], tests
+    g = [(x.kind, P.src(x.test), x.polarity) for x in P.guards(use, stop=scope) if x.kind in ('if', 'early', 'while')]
+    norm = []
+    for k, t, pol in g:
+        if t == '%s is None' % vname:
+            norm.append(('none', not pol))
+        elif t == '%s is not None' % vname:
+            norm.append(('none', pol))
+        else:
+            norm.append((t, pol))
+    return norm == [('none', True)], norm
 
 
 def escaping_rule(ctx, r1):
@@ -87,19 +127,17 @@ def escaping_rule(ctx, r1):
         if isinstance(n, ast.Name) and isinstance(n.ctx, ast.Store) and n.id in ('escape', 'quoteattr'):
             r1.fail('provenance of %s' % n.id, rel, n.lineno, '%s is rebound' % n.id)
 
-    for fname in ('collect_attributes', '_calc_attrs_length'):
-        f, loop = attr_loop(py, fname)
-        vname = loop.target.elts[1].id
-        # value must not be rebound in the loop
-        rebound = [n for n in ast.walk(loop) if isinstance(n, ast.Name) and n.id == vname and isinstance(n.ctx, ast.Store)
-                   and n is not loop.target.elts[1]]
-        r1.check(not rebound, '%s: attribute value not rebound' % fname, rel, loop.lineno,
-                 'attribute value is modified before being written')
-        for u in uses_of(loop, vname):
-            k = classify_use(u)
-            r1.check(k in ('none-test', 'arg:quoteattr/1/0'), '%s: use of attribute value' % fname, rel, u.lineno,
-                     'attribute value reaches the output (or its width) other than through quoteattr(value): %s in `%s`'
-                     % (k, P.src(P.enclosing_stmt(u))), detail=k)
+    for fname, f, scopes in pair_functions(py):
+        for kind, node, aname, vname, scope in scopes:
+            tgt = node.target.elts[1]
+            rebound = [n for n in ast.walk(scope) if isinstance(n, ast.Name) and n.id == vname and isinstance(n.ctx, ast.Store) and n is not tgt]
+            r1.check(not rebound, '%s: attribute value not rebound' % fname, rel, node.lineno if hasattr(node, 'lineno') else f.lineno,
+                     'attribute value is modified before being written')
+            for u in uses_of(scope, vname):
+                k = classify_use(u)
+                r1.check(k in ('none-test', 'arg:quoteattr/1/0'), '%s: use of attribute value' % fname, rel, u.lineno,
+                         'attribute value reaches the output (or its width) other than through quoteattr(value): %s in `%s`'
+                         % (k, P.src(P.enclosing_stmt(u))), detail=k)
     # element text
     f = py.func('xmlwriter', 'build_xml_tag')
     dname = 'data'
@@ -153,94 +191,120 @@ def check(ctx):
 
     # ------------------------------------------------------------------ R2 siblings skip alike
     r2 = ctx.rule('R2', 'width computation and emission skip exactly the None-valued attributes, and use the same quoting', floor=4)
-    for fname in ('collect_attributes', '_calc_attrs_length'):
-        f, loop = attr_loop(py, fname)
-        vname = loop.target.elts[1].id
-        first = loop.body[0]
-        ok = isinstance(first, ast.If) and P.src(first.test) == '%s is None' % vname and len(first.body) == 1 \
-            and isinstance(first.body[0], ast.Continue) and not first.orelse
-        r2.check(ok, '%s: None skip' % fname, rel, loop.lineno, 'loop does not start by skipping attributes whose value is None')
-        conts = [n for n in ast.walk(loop) if isinstance(n, (ast.Continue, ast.Break))]
-        r2.check(len(conts) == 1, '%s: only None is skipped' % fname, rel, loop.lineno,
-                 'attributes are skipped under further conditions (%d continue/break statements)' % len(conts))
+    for fname, f, scopes in pair_functions(py):
+        for kind, node, aname, vname, scope in scopes:
+            qs = [u for u in uses_of(scope, vname) if classify_use(u) == 'arg:quoteattr/1/0']
+            r2.check(bool(qs), '%s: value quoted' % fname, rel, f.lineno, '%s does not use quoteattr(value)' % fname)
+            for u in qs:
+                ok, g = none_guard_only(kind, node, scope, vname, u)
+                r2.check(ok, '%s: exactly the None-valued attributes are skipped' % fname, rel, u.lineno,
+                         'quoteattr(value) is reached under %s: the two functions must skip an attribute exactly when its value is None' % g, detail=str(g))
 
     # ------------------------------------------------------------------ R3 wrapping whitespace only
     r3 = ctx.rule('R3', 'only ` name=quoted` and newline+indent are concatenated; tag assembled as prefix+attrs+suffix', floor=6)
-    f, loop = attr_loop(py, 'collect_attributes')
-    aname, vname = loop.target.elts[0].id, loop.target.elts[1].id
-    acc = None
-    pieces = []
-    for n in ast.walk(loop):
-        if isinstance(n, ast.AugAssign) and isinstance(n.op, ast.Add) and isinstance(n.target, ast.Name):
-            acc = acc or n.target.id
-            if n.target.id != acc:
-                raise AnalysisError('collect_attributes: more than one accumulator')
-            pieces.append(n)
-    if not acc or len(pieces) < 2:
-        raise AnalysisError('collect_attributes: accumulator pattern not recognised')
-    kinds = []
-    for pce in pieces:
-        v = pce.value
-        if isinstance(v, ast.BinOp) and isinstance(v.op, ast.Mod) and isinstance(v.left, ast.Constant) and isinstance(v.left.value, str):
-            fmt = v.left.value
-            args = v.right.elts if isinstance(v.right, ast.Tuple) else [v.right]
-            lit = fmt.replace('%s', '')
-            if fmt.count('%s') == 2 and lit == ' =' and fmt == ' %s=%s' and P.src(args[0]) == aname \
-                    and P.src(args[1]) == 'quoteattr(%s)' % vname:
-                kinds.append('attr')
-                r3.ok('attribute piece', rel, pce.lineno, fmt)
+    emitters = [(n_, f_, sc_) for n_, f_, sc_ in pair_functions(py) if any(isinstance(x, ast.Return) and x.value is not None and not isinstance(x.value, ast.Constant) and _strish(x.value, f_)
+                                                                           for x in P.walk_no_nested(f_))]
+    if len(emitters) != 1:
+        raise AnalysisError('xmlwriter.py: expected exactly one function that returns the attribute run, found %s' % [e[0] for e in emitters])
+    ename, f, scopes = emitters[0]
+    kind, node, aname, vname, scope = scopes[0]
+    # names whose value flows into the returned string
+    flow = set()
+    exprs = []
+    for n in P.walk_no_nested(f):
+        if isinstance(n, ast.Return) and n.value is not None:
+            exprs.append(n.value)
+    changed = True
+    seen = set()
+    while changed:
+        changed = False
+        for e in list(exprs):
+            if id(e) in seen:
                 continue
-            if fmt.count('%s') == 1 and lit.strip(' \n\t') == '' and '\n' in lit:
-                # the substituted value must be indent char * count
-                a = args[0]
-                if isinstance(a, ast.BinOp) and isinstance(a.op, ast.Mult) and 'indent_char' in P.src(a):
-                    kinds.append('wrap')
-                    g = [x.text() for x in P.guards(pce, stop=loop) if x.kind == 'if']
-                    r3.check(any('not first' in x for x in g), 'wrap piece not before first attribute', rel, pce.lineno,
-                             'line break can be inserted before the first attribute: %s' % g, detail=fmt)
-                    continue
-        r3.fail('concatenated piece', rel, pce.lineno, 'unexpected text concatenated into the attribute run: `%s`' % P.src(pce))
-    r3.check(sorted(kinds) == ['attr', 'wrap'], 'pieces', rel, loop.lineno, 'attribute run built from %s' % kinds)
-    # every attr piece unconditional inside the loop (after None skip)
-    for pce in pieces:
-        if P.src(pce.value).startswith("' %s=%s'"):
-            g = [x.text() for x in P.guards(pce, stop=loop) if x.kind in ('if',)]
-            r3.check(g == [], 'attribute piece unconditional', rel, pce.lineno, 'an attribute with a value can be dropped: %s' % g)
-    inits = [P.src(v) for t, v, st in P.stores_in(f) if isinstance(t, ast.Name) and t.id == acc and isinstance(st, ast.Assign)]
-    rets = [P.src(n.value) for n in P.walk_no_nested(f) if isinstance(n, ast.Return)]
-    r3.check(inits == ["''"] and sorted(rets) == sorted(["''", acc]), 'accumulator', rel, f.lineno,
-             'collect_attributes returns something other than the accumulated run: init=%s returns=%s' % (inits, rets))
+            seen.add(id(e))
+            for leaf in strfrag.leaves(strfrag.flatten(e)):
+                x = leaf[1] if leaf[0] == 'expr' else None
+                if isinstance(x, ast.Name) and x.id not in flow:
+                    flow.add(x.id)
+                    changed = True
+        for n in P.walk_no_nested(f):
+            if isinstance(n, (ast.Assign, ast.AugAssign, ast.AnnAssign)):
+                tg = n.targets if isinstance(n, ast.Assign) else [n.target]
+                if any(isinstance(t, ast.Name) and t.id in flow for t in tg) and n.value is not None and id(n.value) not in seen and n.value not in exprs:
+                    exprs.append(n.value)
+                    changed = True
+            elif isinstance(n, ast.Call) and isinstance(n.func, ast.Attribute) and n.func.attr in ('append', 'extend', 'insert') and isinstance(n.func.value, ast.Name) \
+                    and n.func.value.id in flow:
+                for a_ in n.args:
+                    if id(a_) not in seen and a_ not in exprs:
+                        exprs.append(a_)
+                        changed = True
+    params = [a.arg for a in f.args.args]
+    attr_piece = 0
+    for e in exprs:
+        if isinstance(e, ast.Constant) and not isinstance(e.value, str):
+            continue
+        fr = strfrag.flatten(e)
+        for leaf in strfrag.leaves(fr):
+            if leaf[0] == 'const':
+                txt = leaf[1]
+                r3.check(txt.strip(' \n\t') in ('', '='), 'literal text in the attribute run', rel, e.lineno,
+                         'text other than whitespace and "=" is concatenated into the attribute run: %r in `%s`' % (txt, P.src(e)[:80]), detail=txt)
+            else:
+                x = leaf[1]
+                t = P.src(x)
+                ok = (isinstance(x, ast.Name) and (x.id in flow or x.id == aname)) or t == 'quoteattr(%s)' % vname or \
+                    (isinstance(x, ast.BinOp) and isinstance(x.op, ast.Mult) and any(isinstance(y, ast.Name) and 'indent_char' in y.id and y.id in params for y in ast.walk(x))) or \
+                    isinstance(x, (ast.List, ast.ListComp, ast.GeneratorExp)) or (isinstance(x, ast.Constant) and x.value in (True, False, None)) or \
+                    (isinstance(x, ast.Compare)) or isinstance(x, ast.BoolOp)
+                if isinstance(x, ast.Name) and x.id in params and x.id not in (aname,) and 'indent' not in x.id and x.id not in flow:
+                    ok = False
+                r3.check(ok, 'inserted value in the attribute run', rel, getattr(x, 'lineno', e.lineno),
+                         'unexpected value concatenated into the attribute run: `%s` in `%s`' % (t[:60], P.src(e)[:80]), detail=t[:60])
+        for seq in strfrag.sequences(fr):
+            for sub in ([seq] + [list(x[2]) for x in seq if x[0] == 'join']):
+                m_ = strfrag.merge_consts(sub)
+                for i in range(len(m_) - 3):
+                    if m_[i][0] == 'const' and m_[i][1].endswith(' ') and m_[i][1].strip() == '' and m_[i + 1][0] == 'expr' and P.src(m_[i + 1][1]) == aname and m_[i + 2] == ('const', '=') \
+                            and m_[i + 3][0] == 'expr' and P.src(m_[i + 3][1]) == 'quoteattr(%s)' % vname:
+                        attr_piece += 1
+                        ok, g = none_guard_only(kind, node, scope, vname, e) if kind == 'for' else none_guard_only(kind, node, scope, vname, e)
+                        r3.check(ok, 'attribute piece written for every non-None value', rel, e.lineno, 'an attribute with a value can be dropped: piece reached under %s' % g, detail=str(g))
+    r3.check(attr_piece >= 1, 'attribute written as space, name, "=", quoted value', rel, f.lineno, 'no piece of the form " " name "=" quoteattr(value) found in %s' % ename)
     # build_xml_tag assembly
-    f = py.func('xmlwriter', 'build_xml_tag')
-    st = {}
-    for t, v, s_ in P.stores_in(f):
-        if isinstance(t, ast.Name):
-            st.setdefault(t.id, []).append(P.src(v))
-    rets = [n.value for n in P.walk_no_nested(f) if isinstance(n, ast.Return)]
-    ok = len(rets) == 1 and isinstance(rets[0], ast.BinOp)
-    parts = []
-    if ok:
-        e = rets[0]
-        while isinstance(e, ast.BinOp) and isinstance(e.op, ast.Add):
-            parts.insert(0, e.right)
-            e = e.left
-        parts.insert(0, e)
-    names = [P.src(x) for x in parts]
-    good = len(names) == 3 and all(n in st for n in names)
-    if good:
-        pre, at, suf = names
-        good = st[pre] == ["'<%s' % (tag_name,)"] and sorted(st[suf]) == sorted(["'>%s</%s>' % (escape(data), tag_name)", "'/>'"]) \
-            and len(st[at]) == 1 and st[at][0].startswith('collect_attributes(tag_name, attributes,')
-    r3.check(good, 'build_xml_tag assembly', rel, f.lineno,
-             'element is not assembled as "<name" + attributes + (">text</name>" | "/>"): %s' % {n: st.get(n) for n in names},
-             detail={n: st.get(n) for n in names})
+    BT = gsa.summarise(ctx, 'xmlwriter', 'build_xml_tag', inline_only=())
+    f = BT.func
+    tagp = BT.P(0)
+    shapes = []
+    for g, n in BT.returns:
+        for seq in strfrag.sequences(strfrag.flatten(n)):
+            shapes.append([x if x[0] == 'const' else ('expr', gsa._unparse(x[1])) for x in strfrag.merge_consts(seq)])
+
+    def is_attrs(x):
+        return x[0] == 'expr' and x[1].startswith('collect_attributes(%s, ' % tagp)
+    okempty = [sh for sh in shapes if len(sh) == 4 and sh[0] == ('const', '<') and sh[1] == ('expr', tagp) and is_attrs(sh[2]) and sh[3] == ('const', '/>')]
+    oktext = [sh for sh in shapes if len(sh) == 8 and sh[0] == ('const', '<') and sh[1] == ('expr', tagp) and is_attrs(sh[2]) and sh[3] == ('const', '>') and sh[4][0] == 'expr' and
+              re.match(r'^escape\(\w+(\.decode\(.*\))?\)$', sh[4][1]) and sh[5] == ('const', '</') and sh[6] == ('expr', tagp) and sh[7] == ('const', '>')]
+    r3.check(okempty and oktext and len(okempty) + len(oktext) == len(shapes), 'build_xml_tag assembly', rel, f.lineno,
+             'element is not assembled as "<name" + attributes + (">text</name>" | "/>"): %s' % shapes, detail=shapes)
     # same tag name opens and closes
-    ot = py.func('xmlwriter', 'XMLWriter._open_tag')
-    ctg = py.func('xmlwriter', 'XMLWriter._close_tag')
-    wl_o = [P.src(c.args[0]) for c in P.calls_in(ot) if P.call_name(c) == 'self.write_line']
-    wl_c = [P.src(c.args[0]) for c in P.calls_in(ctg) if P.call_name(c) == 'self.write_line']
-    r3.check(len(wl_o) == 1 and wl_o[0].startswith("'<%s%s>' % (tag_name, ") and wl_c == ["'</%s>' % (tag_name,)"],
-             'open/close tag text', rel, ot.lineno, 'open/close tags written as %s / %s' % (wl_o, wl_c))
+    PUSH = gsa.summarise(ctx, 'xmlwriter', 'XMLWriter.push_tag', opaque=('write_line',))
+    POP = gsa.summarise(ctx, 'xmlwriter', 'XMLWriter.pop_tag', opaque=('write_line',))
+    ptag = PUSH.P(1)
+
+    def line_shapes(S):
+        out = []
+        for c in gsa.find(S, 'call', r'^self\.write_line$'):
+            if c.vnode is not None and c.vnode.args:
+                for seq in strfrag.sequences(strfrag.flatten(c.vnode.args[0])):
+                    out.append(([x if x[0] == 'const' else ('expr', gsa._unparse(x[1])) for x in strfrag.merge_consts(seq)], c))
+        return out
+    po = line_shapes(PUSH)
+    pc_ = line_shapes(POP)
+    oko = len(po) >= 1 and all(len(sh) == 4 and sh[0] == ('const', '<') and sh[1] == ('expr', ptag) and sh[2][0] == 'expr' and sh[2][1].startswith('collect_attributes(%s, ' % ptag) and sh[3] == ('const', '>')
+                               for sh, c in po)
+    okc = len(pc_) == 1 and len(pc_[0][0]) == 3 and pc_[0][0][0] == ('const', '</') and pc_[0][0][1] == ('expr', 'self._tag_stack.pop()') and pc_[0][0][2] == ('const', '>')
+    r3.check(oko and okc, 'open/close tag text', rel, PUSH.func.lineno, 'open/close tags written as %s / %s' % ([sh for sh, c in po], [sh for sh, c in pc_]))
     # indent characters are whitespace
     vals = set()
     for n in ast.walk(py.cls('xmlwriter', 'XMLWriter')):
@@ -253,38 +317,24 @@ def check(ctx):
 
     # ------------------------------------------------------------------ R4 element stack
     r4 = ctx.rule('R4', 'element stack: push is exception-atomic, tagcontext pairs push/pop in try/finally, nobody else pushes', floor=6)
-    push = py.func('xmlwriter', 'XMLWriter.push_tag')
-    cfg = pycfg.CFG(push)
-    mut = []
-    calls = []
-    for n in P.walk_no_nested(push):
-        if isinstance(n, ast.Call) and P.src(n.func) == 'self._tag_stack.append':
-            mut.append(P.enclosing_stmt(n))
-        elif isinstance(n, ast.AugAssign) and P.src(n.target) == 'self._indent':
-            mut.append(n)
-        elif isinstance(n, ast.Call) and (P.call_name(n) or '').startswith('self.') and P.src(n.func) != 'self._tag_stack.append':
-            calls.append(P.enclosing_stmt(n))
-    if len(mut) != 2 or not calls:
+    push = PUSH.func
+    app = gsa.find(PUSH, 'call', r'^self\._tag_stack\.append$')
+    ind = [e for e in PUSH.effects if e.kind == 'aug' and e.target == 'self._indent']
+    if len(app) != 1 or len(ind) != 1 or not po:
         raise AnalysisError('push_tag: expected one stack append, one indent increment and the call that writes the start tag')
-    for c in calls:
-        for mu in mut:
-            r4.check(not cfg.reaches(mu, c), 'push_tag: write start tag before recording it', rel, c.lineno,
+    for sh, c in po:
+        for mu in app + ind:
+            r4.check(c.seq < mu.seq, 'push_tag: write start tag before recording it', rel, c.line,
                      'in push_tag `%s` can run after `%s`: if writing the start tag raises, the element is already on the '
-                     'stack and an enclosing tagcontext closes a tag that was never opened' % (P.src(c), P.src(mu)),
-                     detail='%s precedes %s' % (P.src(c), P.src(mu)))
-    # pushed name == tag_name written
-    r4.check(any(P.src(mu) == 'self._tag_stack.append(tag_name)' for mu in mut) and
-             any(P.src(c).startswith('self._open_tag(tag_name') for c in calls),
-             'push_tag: same name written and recorded', rel, push.lineno, 'the recorded tag name is not the one written')
-    pop = py.func('xmlwriter', 'XMLWriter.pop_tag')
-    body = [P.src(s) for s in pop.body]
-    popped = [t.id for t, v, s_ in P.stores_in(pop) if isinstance(t, ast.Name) and P.src(v) == 'self._tag_stack.pop()']
-    closes = [c for c in P.calls_in(pop) if P.call_name(c) == 'self._close_tag']
-    r4.check(len(popped) == 1 and len(closes) == 1 and P.src(closes[0].args[0]) == popped[0], 'pop_tag closes the innermost open element',
-             rel, pop.lineno, 'pop_tag does not close the element popped from the top of the stack: %s' % body)
-    inc = [P.src(n.value) for n in P.walk_no_nested(push) if isinstance(n, ast.AugAssign) and isinstance(n.op, ast.Add)]
-    dec = [P.src(n.value) for n in P.walk_no_nested(pop) if isinstance(n, ast.AugAssign) and isinstance(n.op, ast.Sub)]
-    r4.check(inc == dec and len(inc) == 1, 'indent symmetric', rel, pop.lineno, 'indent +%s / -%s' % (inc, dec))
+                     'stack and an enclosing tagcontext closes a tag that was never opened' % (c.value[:50], (mu.value or mu.target)[:50]),
+                     detail='%s precedes %s' % (mu.target, c.target))
+    r4.check(app[0].args == [ptag], 'push_tag: same name written and recorded', rel, push.lineno, 'the recorded tag name is %s, the one written is %s' % (app[0].args, ptag))
+    pop = POP.func
+    r4.check(okc and len(gsa.find(POP, 'call', r'^self\._tag_stack\.pop$')) == 1, 'pop_tag closes the innermost open element',
+             rel, pop.lineno, 'pop_tag does not close the element popped from the top of the stack: %s' % [sh for sh, c in pc_])
+    dec = [e for e in POP.effects if e.kind == 'aug' and e.target == 'self._indent']
+    r4.check(len(dec) == 1 and isinstance(ind[0].node.op, ast.Add) and isinstance(dec[0].node.op, ast.Sub) and P.src(ind[0].node.value) == P.src(dec[0].node.value), 'indent symmetric', rel, pop.lineno,
+             'indent +%s / -%s' % ([P.src(e.node.value) for e in ind], [P.src(e.node.value) for e in dec]))
     tc = py.func('xmlwriter', 'XMLWriter.tagcontext')
     deco = [P.src(d) for d in tc.decorator_list]
     tries = [n for n in tc.body if isinstance(n, ast.Try)]
@@ -334,3 +384,18 @@ def check(ctx):
             if isinstance(c.func, ast.Attribute) and c.func.attr == 'decode':
                 dec.append(str(py.try_fold(c.args[0], m) if c.args else 'utf-8').lower())
     r5.check(dec and all(d == 'utf-8' for d in dec), 'bytes input decoding', rel, 1, 'bytes are decoded as %s' % dec, detail=dec)
+
+
+def _strish(v, f):
+    """the returned expression is a string being built (a name, a concatenation, a join), not a number"""
+    if isinstance(v, ast.Call) and isinstance(v.func, ast.Attribute) and v.func.attr == 'join':
+        return True
+    if isinstance(v, ast.Name):
+        for t, val, st in P.stores_in(f):
+            if isinstance(t, ast.Name) and t.id == v.id:
+                if isinstance(val, ast.Constant) and isinstance(val.value, str):
+                    return True
+                if isinstance(val, (ast.JoinedStr,)) or (isinstance(val, ast.BinOp) and isinstance(val.op, ast.Mod)):
+                    return True
+        return False
+    return isinstance(v, (ast.JoinedStr,)) or (isinstance(v, ast.BinOp) and isinstance(v.op, (ast.Mod,)))
